@@ -37,11 +37,13 @@ class FieldArrayModel(FieldCompositeModel):
         # Holds a cached version of the sum constraint
         self.sum_expr_btor = None
         self.sum_expr_btor_ctx = None
+        self.sum_expr_btor_width = -1
         self.sum_expr = None
         
         # Holds a cached version of the sum constraint
         self.product_expr_btor = None
         self.product_expr_btor_ctx = None
+        self.product_expr_btor_width = -1
         self.product_expr = None
         
         self.size = FieldScalarModel(
@@ -198,9 +200,12 @@ class FieldArrayModel(FieldCompositeModel):
         
     def build_sum_expr(self, btor, ctx_width=-1):
         # The cached node is only valid for the solver instance that built it
-        if self.sum_expr_btor is None or self.sum_expr_btor_ctx is not btor:
+        # and for the width of the expression it was built into
+        if (self.sum_expr_btor is None or self.sum_expr_btor_ctx is not btor
+            or self.sum_expr_btor_width != ctx_width):
             self.sum_expr_btor = self.get_sum_expr().build(btor, ctx_width)
             self.sum_expr_btor_ctx = btor
+            self.sum_expr_btor_width = ctx_width
         return self.sum_expr_btor
     
     def get_product_expr(self):
@@ -225,9 +230,12 @@ class FieldArrayModel(FieldCompositeModel):
         
     def build_product_expr(self, btor, ctx_width=-1):
         # The cached node is only valid for the solver instance that built it
-        if self.product_expr_btor is None or self.product_expr_btor_ctx is not btor:
+        # and for the width of the expression it was built into
+        if (self.product_expr_btor is None or self.product_expr_btor_ctx is not btor
+            or self.product_expr_btor_width != ctx_width):
             self.product_expr_btor = self.get_product_expr().build(btor, ctx_width)
             self.product_expr_btor_ctx = btor
+            self.product_expr_btor_width = ctx_width
         return self.product_expr_btor    
         
     def accept(self, v):
